@@ -132,14 +132,14 @@ def server_part(ctx):
                           '  blacklist {', '    file "@FIX@/bl.txt"', '    mode "%s"' % mode, '  }'] +
                          (['  cache {', '    size 1M', '    time 60', '  }'] if cache else []) +
                          ['  route /f {', '    file "@FIX@/page.html"', '  }', '  route /r {', '    redirect "/elsewhere"', '  }',
-                          '  route /d/* {', '    directory "@FIX@/dir"', '  }', '}']) + '\n'
+                          '  route /d/* {', '    directory "@FIX@/dir"', '  }', '  route /p {', '    proxy "@UP@"', '  }', '}']) + '\n'
         fixtures = ','.join(['%s:%s' % (hx('bl.txt'), hx('\n'.join(lst) + '\n')), '%s:%s' % (hx('page.html'), hx('PAGE')),
                              '%s:%s' % (hx('dir/x.txt'), hx('DIRFILE'))])
         reqs = []
         for _ in range(6):
             peer = rng.choice(POOL[:4])
             xff = rng.choice([None, None, rng.choice(POOL), '%s, %s' % (rng.choice(POOL), rng.choice(POOL + ['::1', 'unknown']))])
-            target = rng.choice(['/f', '/r', '/d/x.txt'])
+            target = rng.choice(['/f', '/r', '/d/x.txt', '/p'])
             reqs.append((peer, xff, target))
         # an unlisted client fetches everything first, so that cached answers exist when the cache is on
         warm = [('127.0.0.77', None, t) for t in ('/f', '/d/x.txt')]
@@ -170,7 +170,7 @@ def server_part(ctx):
                 want = 'served'
             cls = 'dropped' if g == 'noresp' else 'forbidden' if g.startswith('403:') else 'served' if g[:4] in ('200:', '301:') else 'other'
             if cls == 'served':
-                body_ok = {'/f': '200:body:' + b'PAGE'.hex(), '/r': '301:loc:' + b'/elsewhere'.hex(), '/d/x.txt': '200:body:' + b'DIRFILE'.hex()}[target]
+                body_ok = {'/f': '200:body:' + b'PAGE'.hex(), '/r': '301:loc:' + b'/elsewhere'.hex(), '/d/x.txt': '200:body:' + b'DIRFILE'.hex(), '/p': '200:body:' + b'UPSTREAM'.hex()}[target]
                 if g != body_ok:
                     cls = 'other'
             if cls != want:
